@@ -278,6 +278,46 @@ def check_frames(case):
                                 out.viol('div-inf', '%s contains inf' % what, **sig)
                         except Exception:
                             pass
+    # ---- three frames through the list forms. columns='oj': column sets {a,b}, {b,c}, {a,c} (a missing column is the neutral element
+    #      at every step); columns='ij': all three over {a,b} (so that the running result keeps two columns)
+    third_desc = [case['a'][0], (case['a'][1] + 1) % 5]
+    for colpol, sets in (('oj', (['a', 'b'], ['b', 'c'], ['a', 'c'])), ('ij', (['a', 'b'], ['a', 'b'], ['a', 'b']))):
+        F = [frame_model(case['a'], 0, sets[0]), frame_model(case['b'], 1, sets[1]), frame_model(third_desc, 2, sets[2])]
+        fdesc = 'A=%s B=%s C=%s' % tuple(F)
+        allcols = sorted(set(sets[0]) | set(sets[1]) | set(sets[2]))
+        for how in ('ij', 'oj'):
+            days = tm.common_days([set(case['a'][0]), set(case['b'][0]), set(third_desc[0])], how)
+            forms = [('add', 'add_([A,B,C])', lambda X: opfun('add')(X, join=how, columns=colpol), 'fold'),
+                     ('mul', 'mul_([A,B,C])', lambda X: opfun('mul')(X, join=how, columns=colpol), 'fold'),
+                     ('sub', 'sub_(A,[B,C])', lambda X: opfun('sub')(X[0], X[1:], join=how, columns=colpol), 'right'),
+                     ('div', 'div_(A,[B,C])', lambda X: opfun('div')(X[0], X[1:], join=how, columns=colpol), 'right'),
+                     ('sub', 'sub_([A,B],C)', lambda X: opfun('sub')(X[:2], X[2], join=how, columns=colpol), 'left'),
+                     ('div', 'div_([A,B],C)', lambda X: opfun('div')(X[:2], X[2], join=how, columns=colpol), 'left')]
+            for op, fname, call, shape in forms:
+                out.sub()
+                sig = dict(op=op, how=how, columns=colpol, form=fname)
+                try:
+                    res = call([tm.build_frame(f) for f in F])
+                    out.call()
+                except Exception as e:
+                    out.viol('raised', '%s (%s, join=%s, columns=%s) raised %s: %s' % (fname, fdesc, how, colpol, type(e).__name__, e), exc=type(e).__name__, **sig)
+                    continue
+                neutral = NEUTRAL[op]
+                inner = {'sub': 'add', 'div': 'mul'}.get(op, op)
+                exp = {}
+                for c in allcols:
+                    cols_al = [tm.align(f[c], days) if c in f else {d: NEUTRAL[inner] for d in days} for f in F]
+                    if shape == 'fold':
+                        exp[c] = {d: fold(op, [x[d] for x in cols_al]) for d in days}
+                    elif shape == 'right':
+                        first = tm.align(F[0][c], days) if c in F[0] else {d: neutral for d in days}
+                        exp[c] = {d: npop(op, first[d], fold(inner, [x[d] for x in cols_al[1:]])) for d in days}
+                    else:
+                        last = tm.align(F[2][c], days) if c in F[2] else {d: neutral for d in days}
+                        exp[c] = {d: npop(op, fold(inner, [x[d] for x in cols_al[:2]]), last[d]) for d in days}
+                p = _bool_frame_problem(res, exp, '%s (%s, join=%s, columns=%s)' % (fname, fdesc, how, colpol))
+                if p:
+                    out.viol('wrong-value', p, **sig)
     if set(case['a'][0]) != set(case['b'][0]):
         out.nontrivial()
     out.cls('frames-%s' % ('same' if set(case['a'][0]) == set(case['b'][0]) else 'diff'))
@@ -313,6 +353,30 @@ def check_lists(case):
                     out.viol('list-form-differs', '%s_(a, [b, c..]) != %s_([a, b, c..]) for %s join=%s' % (op, op, desc, how), **sig)
             except Exception as e:
                 out.viol('raised', '%s_(list of %s, join=%s) raised %s: %s' % (op, desc, how, type(e).__name__, e), exc=type(e).__name__, form='list', **sig)
+    # sub_ / div_ take a list on either side: sub_(x, [y, z]) = x - (y + z), sub_([x, y], z) = (x + y) - z, div_ likewise with products
+    for how in ('ij', 'oj'):
+        days_ = tm.common_days([set(m) for m in models], how)
+        al_ = [tm.align(m, days_) for m in models]
+        for op, inner in (('sub', 'add'), ('div', 'mul')):
+            for side in ('right', 'left'):
+                out.sub()
+                sig = dict(op=op, how=how, k=k, listside=side)
+                ss = fresh()
+                try:
+                    if side == 'right':
+                        res = opfun(op)(ss[0], ss[1:], join=how)
+                        exp = {d: npop(op, al_[0][d], fold(inner, [a[d] for a in al_[1:]])) for d in days_}
+                    else:
+                        res = opfun(op)(ss[:-1], ss[-1], join=how)
+                        exp = {d: npop(op, fold(inner, [a[d] for a in al_[:-1]]), al_[-1][d]) for d in days_}
+                    out.call()
+                    p = result_problem(res, exp, '%s_ with a list on the %s (%s, join=%s)' % (op, side, desc, how))
+                    if p:
+                        out.viol('wrong-value', p, form='list', **sig)
+                    if op == 'div' and isinstance(res, pd.Series) and np.isinf(np.asarray(res, dtype=float)).any():
+                        out.viol('div-inf', 'div_ with a list (%s, join=%s) contains inf' % (desc, how), **sig)
+                except Exception as e:
+                    out.viol('raised', '%s_ with a list on the %s (%s, join=%s) raised %s: %s' % (op, side, desc, how, type(e).__name__, e), exc=type(e).__name__, form='list', **sig)
     # left-to-right reduction is only observable in the last bit: (0.1 + 0.2) + 0.3 != 0.1 + (0.2 + 0.3); compared exactly
     FR = [0.1, 0.2, 0.3, 0.7]
     fm = [{d: FR[i] for d in m} for i, m in enumerate(models)]
